@@ -125,7 +125,13 @@ func drawFault(tp *tape.Tape, fresh func() string) fault {
 			n = d
 		}
 		v := fresh()
-		return fault{a: fmt.Sprintf("for %s <- bwalk(%d, 0) {\n%s = %s\n}", v, n, y, v), tag: "F1.bottom_of_nested_generators", depth: true}
+		one := fmt.Sprintf("for %s <- bwalk(%d, 0) {\n%s = %s\n}", v, n, y, v)
+		if tp.Draw(3) == 0 { // three such failures on consecutive lines, several hundred contexts alive each time
+			n = 350 + tp.Draw(200)
+			one = fmt.Sprintf("for %s <- bwalk(%d, 0) {\n%s = %s\n}", v, n, y, v)
+			one = one + "\n" + one + "\n" + one
+		}
+		return fault{a: one, tag: "F1.bottom_of_nested_generators", depth: true}
 	case 12: // two statements on one physical line, the first one fails: the second still runs
 		v := fresh()
 		a := fmt.Sprintf("%s = bomb(%d, 0) %s = %d", y, d%6, v, 100+tp.Draw(900))
